@@ -9,7 +9,7 @@ use flsrc::uci::Flounder;
 use serde_json::{json, Value};
 use std::cell::RefCell;
 
-pub const RULE: &str = "wtime/btime/winc/binc over 0..86_400_000 ms from a boundary-rich mixture (0,1,49,50,4999,5000,5001,5025,60000, hours; increments 0,1,<remaining,=remaining,>remaining), all 24 orders of the four name-value pairs and the two-pair form in both orders, either side to move (set by a preceding position command). The budget B is what the REAL go parser hands to the search (hook verif_go_budget; nothing duplicated). Oracle: (1) independence — B unchanged when the opponent's time/inc are replaced and under every permutation of the pairs; (2) fit — B <= own time, B < own time when own time > 0, a missing limit counts as exceeding. Non-trivial = own != opp in time or inc and own time > 0; distinct by (five-tuple, order).";
+pub const RULE: &str = "wtime/btime/winc/binc over 0..86_400_000 ms from a boundary-rich mixture (0,1,49,50,4999,5000,5001,5025,60000, hours; increments 0,1,<remaining,=remaining,>remaining), all 24 orders of the four name-value pairs and the two-pair form in both orders, either side to move, in whatever position the engine holds (a generated valid position of 2..32 men, changed every dozen cases by a position command). The budget B is what the REAL go parser hands to the search (hook verif_go_budget; nothing duplicated). Oracle: (1) independence — B unchanged when the opponent's time/inc are replaced and under every permutation of the pairs; (2) fit — B <= own time, B < own time when own time > 0, a missing limit counts as exceeding. Non-trivial = own != opp in time or inc and own time > 0; distinct by (five-tuple, order).";
 
 
 fn time_value(s: &mut Src) -> u64 {
@@ -43,24 +43,39 @@ fn inc_value(s: &mut Src, remaining: u64) -> u64 {
     }
 }
 
-fn budget(white_to_move: bool, cmd: &str) -> Result<Option<(u8, Option<std::time::Duration>)>, Failure> {
-    // one engine per side to move and thread (a position command rebuilds the magic tables)
-    thread_local! {
-        static ENGINES: RefCell<[Option<Flounder>; 2]> = RefCell::new([None, None]);
-    }
-    ENGINES.with(|e| {
+thread_local! {
+    /// one engine per thread and the position it currently holds (FEN, white to move?)
+    static ENGINE: RefCell<Option<(Flounder, String, bool)>> = RefCell::new(None);
+}
+
+/// Sets the position of the thread's engine (a position command rebuilds the magic tables, so
+/// cases change it only now and then).
+fn set_position(fen: &str, white_to_move: bool) -> Result<(), Failure> {
+    ENGINE.with(|e| {
         let mut e = e.borrow_mut();
-        let slot = &mut e[white_to_move as usize];
-        if slot.is_none() {
-            let mut fl = Flounder::new();
-            let pc = if white_to_move { "position startpos" } else { "position startpos moves e2e4" };
-            guarded("position", || fl.verif_handle_command(pc))?;
-            *slot = Some(fl);
-        }
-        let fl = slot.as_mut().unwrap();
+        let mut fl = match e.take() {
+            Some((fl, _, _)) => fl,
+            None => Flounder::new(),
+        };
+        guarded("position", || fl.verif_handle_command(&format!("position fen {}", fen)))?;
+        *e = Some((fl, fen.to_string(), white_to_move));
+        Ok(())
+    })
+}
+
+fn current_position() -> Option<(String, bool)> {
+    ENGINE.with(|e| e.borrow().as_ref().map(|x| (x.1.clone(), x.2)))
+}
+
+fn budget(_white_to_move: bool, cmd: &str) -> Result<Option<(u8, Option<std::time::Duration>)>, Failure> {
+    ENGINE.with(|e| {
+        let mut e = e.borrow_mut();
+        let Some((fl, _, _)) = e.as_mut() else {
+            return Err(Failure::new("harness-no-position-set", json!({})));
+        };
         let r = guarded("go", || fl.verif_go_budget(cmd));
         if r.is_err() {
-            *slot = None;
+            *e = None;
         }
         r
     })
@@ -83,7 +98,22 @@ const PERMS: [[usize; 4]; 24] = [
 
 fn check(bytes: &[u8], stats: &mut Stats) -> Verdict {
     let mut s = Src::new(bytes);
-    let white = s.bool();
+    // the position: changed in one case out of twelve (any valid position, 2..32 men, either
+    // side to move), otherwise the one the thread's engine already holds
+    if current_position().is_none() || s.chance(8) {
+        let p = match s.below(3) {
+            0 => refchess::Pos::startpos(),
+            1 => crate::gen::g_small(&mut s).0,
+            _ => crate::gen::g_mix(&mut s).0,
+        };
+        set_position(&p.fen(0, 1), p.stm == refchess::Color::W)?;
+        stats.class(match p.men() {
+            0..=6 => "position_set_with_up_to_6_men",
+            7..=12 => "position_set_with_7_to_12_men",
+            _ => "position_set_with_13_or_more_men",
+        });
+    }
+    let (pos_fen, white) = current_position().unwrap();
     let own_t = time_value(&mut s);
     let own_i = inc_value(&mut s, own_t);
     let opp_t = time_value(&mut s);
@@ -102,7 +132,7 @@ fn check(bytes: &[u8], stats: &mut Stats) -> Verdict {
     let (eff_own_i, _eff_opp_i) = if two_pair { (0, 0) } else { (own_i, opp_i) };
     let cmd = cmd_for(&base_order, &vals);
     let side = if white { "white" } else { "black" };
-    let desc = |cmd: &str| json!({"side_to_move": side, "command": cmd, "own_time": own_t, "own_inc": eff_own_i, "opp_time": opp_t, "opp_inc": if two_pair {0} else {opp_i}});
+    let desc = |cmd: &str| json!({"position": pos_fen, "side_to_move": side, "command": cmd, "own_time": own_t, "own_inc": eff_own_i, "opp_time": opp_t, "opp_inc": if two_pair {0} else {opp_i}});
     let b = budget(white, &cmd)?;
     stats.eval();
     let Some((_depth, limit)) = b else {
@@ -192,6 +222,14 @@ pub fn run(tier: Tier, seed: u64, known: &Known) -> PropRun {
 fn replay_case(case: &Value, stats: &mut Stats) -> Option<Verdict> {
     let cmd = case.get("command")?.as_str()?;
     let white = case.get("side_to_move")?.as_str()? == "white";
+    let fen = match case.get("position").and_then(|x| x.as_str()) {
+        Some(f) => f.to_string(),
+        // files written before the position became part of the case
+        None => if white { "rnbqkbnr/pppppppp/8/8/8/8/PPPPPPPP/RNBQKBNR w KQkq - 0 1".to_string() } else { "rnbqkbnr/pppppppp/8/8/4P3/8/PPPP1PPP/RNBQKBNR b KQkq e3 0 1".to_string() },
+    };
+    if let Err(f) = set_position(&fen, white) {
+        return Some(Err(f));
+    }
     let own_key = if white { "wtime" } else { "btime" };
     let toks: Vec<&str> = cmd.split_whitespace().collect();
     let own_t: u64 = toks.iter().position(|t| *t == own_key).and_then(|i| toks.get(i + 1)).and_then(|x| x.parse().ok())?;
